@@ -127,6 +127,19 @@ func checkC04(c *Ctx) {
 	// the background build writes to and unlocks whatever the buffer holds by then (C09 R09.1)
 	c.borrowKinds("C09", func() { c.c09Retention() }, "R04.4", "Failover.Get:key-copied-before-go", []string{"R09.1"}, "read-in-goroutine")
 	c.c04CtorWiring("R04.9", false)
+	// "every Get returns once the builder invocations it depends on have returned": with SyncRead a Get that finds the key locked
+	// still reads in the section (C05 R05.1) — otherwise it waits for a build although a servable value is there, and a builder
+	// reading its own key through the instance waits for itself; after a failure "a later Get is able to build again" also under
+	// SkipRead: the failure cache is consulted with the caller's context (C06 R06.7)
+	for _, sib := range siblings {
+		if fo := c.failover(sib); fo.Err == nil {
+			fo := fo
+			c.borrowKinds("C05", func() { c.c05Sibling(fo) }, "R04.3", sib+".Get:syncread-waiter-reads", []string{"R05.1"}, "waiter-read-count")
+		}
+	}
+	c.borrow("C06", func() { c.c06Accessors() }, func(o *coreObl) (string, bool) {
+		return "R04.6", o.Rule == "R06.7" && o.Construct != "TTL" && o.Construct != "SkipRead"
+	})
 	// R04.3 relies on the keyLocks mutex being one mutex: a copy of the Failover struct (value receiver, dereference) carries a
 	// copy of it, which excludes nobody — or starts out locked and blocks for ever (C16 R16.10, copylock pass)
 	c.borrow("C16", func() { c.c16CopyLocks() }, func(o *coreObl) (string, bool) { return "R04.3", o.Rule == "R16.10" })
